@@ -61,7 +61,7 @@ def gen_queue_cases(tier, seed):
     targets = ["x", "relative/path", "/", "/kvna", "/.", "/./", "//", "/" + "./" * 40 + "kvnx/a", "/./././" + WATCH[1:] + "/n", WATCH, WATCH + "/n",
                "/" * 20 + "x", "/." * 30, R + "/w", "/kvnx", "/./" + R[1:] + "/w/proj", "/.//" + WATCH[1:] + "/n",
                "/" + "/" * 33 + "." + WATCH + "/n", "/" + "./" * 31 + "/" + WATCH[1:] + "/n"]
-    names = ["0", "1", "2", "5", "007", "10", "x", "1x", "99999999999999999999"]
+    names = ["0", "1", "2", "5", "007", "10", "x", "1x", "99999999999999999999", "-1", "-5", "-9223372036854775808", "18446744073709551615", "+3"]
     n = 0
     for _ in range(250 if tier == "quick" else 5000):
         s = wc.Script()
